@@ -137,7 +137,8 @@ def handle (line : String) : String :=
           | x => x
         let w := attrWrite dblOps k val
         s!"W w={toHex w} s={toHex (attrAsStr dblOps cfg k val)} | " ++
-          showRead k (attrRead dblOps cfg lookup k false (IStream.ofBytes (w ++ [44])))
+          showRead k (attrRead dblOps cfg lookup k false (IStream.ofBytes (w ++ [44]))) ++
+          " | " ++ showVerdict k (Grammar.classify dblOps lookup k w)
       | none => "bad-op"
     | none => "bad-op"
   | ["fl", "g15", bits] =>
